@@ -422,13 +422,23 @@ def const_expr(decls, t, v):
     raise ValueError("not a configurable type: %s" % k)
 
 
-def config_script(cfgs):
-    """script with `configurable { name: T = dflt, .. }` whose main logs every configurable in declaration order"""
+BIG_CONSTS = """#[inline(never)] fn opaque_b256(x: b256) -> b256 { x }
+#[inline(never)] fn opaque_u256(x: u256) -> u256 { x }
+"""
+BIG_CONST_USES = ("    if opaque_b256(0x1111111111111111111111111111111111111111111111111111111111111111) == 0x2222222222222222222222222222222222222222222222222222222222222222 { revert(99); }\n"
+                  "    if opaque_u256(0x3333333333333333333333333333333333333333333333333333333333333333u256) == 0x4444444444444444444444444444444444444444444444444444444444444444u256 { revert(98); }\n")
+
+
+def config_script(cfgs, big_consts=False):
+    """script with `configurable { name: T = dflt, .. }` whose main logs every configurable in declaration order.
+    big_consts: main also uses constants that do not fit a register (b256 / u256 literals: data-section entries
+    loaded through pointer words that the backend appends to the data section while it emits the code)."""
     d = Decls()
     lines = ["    %s: %s = %s," % (c["name"], d.ty(c["t"]), const_expr(d, c["t"], c["dflt"])) for c in cfgs]
     logs = "\n".join("    log(%s);" % c["name"] for c in cfgs)
     block = ("configurable {\n" + "\n".join(lines) + "\n}\n") if cfgs else ""
-    return PRELUDE + "\n" + d.render() + "\n\n" + block + "\nfn main() {\n" + logs + "\n}\n"
+    return (PRELUDE + "\n" + d.render() + "\n\n" + block + (BIG_CONSTS if big_consts else "") + "\nfn main() {\n"
+            + (BIG_CONST_USES if big_consts else "") + logs + "\n}\n")
 
 
 def ret_script(t, v):
